@@ -451,7 +451,7 @@ func init() {
 		Rule: "(a) every file of the recorded corpus corpus/v1_1 (dumps of the accepted programs of K and S written by the pinned build, plus hand-assembled files: every opcode incl. NOP and a terminating LOOP, negative/extreme ints, bool and nil constants, minor version 0, 2- and 3-byte operand indices) is loaded and executed by the real code and must reproduce the recorded output/blocks/binding/error; " +
 			"(b) all instruction sequences of length <=L (quick 4, thorough 5) over a 38-instruction alphabet with an 8-constant pool, assembled by the independent encoder, filtered by the verifier, executed by the real LoadProg+Execute and by the reference VM (pinned opcode numbers) — results must agree; " +
 			"(c) the dump of every accepted program of K, S and the C02-C04 enumerations is decoded by the independent decoder (documented layout, pinned numbers), re-encoded byte-identically, and re-executed by the reference VM to the same result as the real execution. distinct_nontrivial = files/sequences/programs actually compared.",
-		Subs:           []*fw.Sub{subC14Dec, subC14Seq, subC14File},
+		Subs:           []*fw.Sub{subC14Dec, subC14Seq, subC14File, subC14Loop},
 		BudgetQuick:    100,
 		BudgetThorough: 1500,
 		Assumptions:    []string{"the corpus was recorded by the build pinned for this task (after the Dump/Load repairs) and cross-validated against the reference VM at recording time"},
@@ -459,6 +459,9 @@ func init() {
 			corpus := loadCorpus()
 			if len(corpus) == 0 {
 				c.Infra("recorded corpus missing: %s", corpusPath())
+			}
+			for _, lc := range c14LoopCases(c.Thorough()) {
+				c.Do(subC14Loop, lc)
 			}
 			for _, e := range corpus {
 				c.Do(subC14File, &c14File{Name: e.Name})
